@@ -61,16 +61,18 @@ def replay_mean(sc):
     nl, nr = sc["nl"], sc["nr"]
     for name, model in concrete_models().items():
         fv = model.levy_triplet.nu.jump_of_finite_variation()
-        h = 0.1
-        axis = np.array([-h * (1.7**i) for i in range(nl)][::-1] + [0.0] + [h * (1.6**i) for i in range(nr)])
-        for rep_name, rep in REPS.items():
+        # two scales: a grid inside [-1, 1] and one reaching beyond +-1 (the cut-off of the ONEONE / CENTER compensators)
+        for h, rep_name, rep in [(hh, rn, rp) for hh in (0.1, 0.8) for rn, rp in REPS.items()]:
+            axis = np.array([-h * (1.7**i) for i in range(max(nl, 2))][::-1] + [0.0] + [h * (1.6**i) for i in range(max(nr, 2))]) if h > 0.5 else \
+                np.array([-h * (1.7**i) for i in range(nl)][::-1] + [0.0] + [h * (1.6**i) for i in range(nr)])
+            nlh = max(nl, 2) if h > 0.5 else nl
             import copy
 
             m = copy.deepcopy(model)
             if rep_name == "ZERO" and not fv:
                 continue
             m.levy_triplet.set_representation(rep)
-            grid = GS.CTMCGrid(h=h, origin_coordinate=nl, axes=[axis.copy()])
+            grid = GS.CTMCGrid(h=h, origin_coordinate=nlh, axes=[axis.copy()])
             proc = MC.MarkovChainProcess(m, SamplingMethod.INVERSION, grid)
             proc.initialisation(StubProduct())
             q = SF.create_q_vector(proc.model.levy_triplet.nu, grid)
@@ -85,7 +87,7 @@ def replay_mean(sc):
             else:
                 want = a + quad_mass(nu, l, min(-1.0, l) if l > -1 else -1.0, 1) * (1 if l < -1 else 0) + (quad_mass(nu, 1.0, r, 1) if r > 1 else 0.0)
             if abs(got - want) > 1e-6 * max(1.0, abs(want)):
-                details.append(f"{name} in {rep_name}: drift + sum x_k q_k = {got!r}, mean of the truncated process = {want!r}")
+                details.append(f"{name} in {rep_name}, grid [{l:.3f}, {r:.3f}]: drift + sum x_k q_k = {got!r}, mean of the truncated process = {want!r}")
     return bool(details), "; ".join(details[:3]) if details else "mean identity holds on HEM/CGMY"
 
 
